@@ -100,29 +100,29 @@ func failingAfter(text string) templ.Component {
 
 func jobs() map[string]job {
 	return map[string]job{
-		"pageA":         {"pageA", func() templ.Component { return Page("alice", []string{"a1", "a2"}) }, -1, false, false},
-		"pageB":         {"pageB", func() templ.Component { return Page("bob", []string{"b1"}) }, -1, false, false},
-		"bigA":          {"bigA", func() templ.Component { return Big("AAAA") }, -1, false, false},
-		"bigB":          {"bigB", func() templ.Component { return Big("BBBB") }, -1, false, false},
-		"smallA":        {"smallA", func() templ.Component { return Small("a") }, -1, false, false},
-		"smallB":        {"smallB", func() templ.Component { return Small("b") }, -1, false, false},
+		"pageA":         {"pageA", func() templ.Component { return Page("alice", []string{"a1", "a2"}) }, -1, false, false, false},
+		"pageB":         {"pageB", func() templ.Component { return Page("bob", []string{"b1"}) }, -1, false, false, false},
+		"bigA":          {"bigA", func() templ.Component { return Big("AAAA") }, -1, false, false, false},
+		"bigB":          {"bigB", func() templ.Component { return Big("BBBB") }, -1, false, false, false},
+		"smallA":        {"smallA", func() templ.Component { return Small("a") }, -1, false, false, false},
+		"smallB":        {"smallB", func() templ.Component { return Small("b") }, -1, false, false, false},
 		"handlerOK":     {name: "handlerOK", mk: func() templ.Component { return Big("AAAA") }, failAt: -1, handler: true},
 		"handlerFail":   {name: "handlerFail", mk: func() templ.Component { return failingAfter(strings.Repeat("BBBB-", 60)) }, failAt: -1, handler: true},
 		"handlerFailEH": {name: "handlerFailEH", mk: func() templ.Component { return failingAfter(strings.Repeat("CCCC-", 60)) }, failAt: -1, handler: true, eh: true},
 		"mwA":           {name: "mwA", failAt: -1, mw: true, mk: func() templ.Component { return nil }},
 		"mwB":           {name: "mwB", failAt: -1, mw: true, mk: func() templ.Component { return nil }},
-		"otherA":        {"otherA", func() templ.Component { return Other("from-the-second-file") }, -1, false, false},
-		"spreadA":       {"spreadA", func() templ.Component { return Spread("alice@example.com") }, -1, false, false},
-		"spreadB":       {"spreadB", func() templ.Component { return Spread("bob") }, -1, false, false},
+		"otherA":        {"otherA", func() templ.Component { return Other("from-the-second-file") }, -1, false, false, false},
+		"spreadA":       {"spreadA", func() templ.Component { return Spread("alice@example.com") }, -1, false, false, false},
+		"spreadB":       {"spreadB", func() templ.Component { return Spread("bob") }, -1, false, false, false},
 		// the same sanitisers with an accepted and a rejected value side by side
 		"kitchenA": {"kitchenA", func() templ.Component {
 			return Kitchen("red", "https://example.com/a", "serif", templ.Attributes{"data-x": "1", "data-y": "alice"})
-		}, -1, false, false},
+		}, -1, false, false, false},
 		"kitchenB": {"kitchenB", func() templ.Component {
 			return Kitchen("x}*{color:x", "data:text/html,<script>alert(1)</script>", "x}*{color:x, serif", templ.Attributes{"data-x": "2"})
-		}, -1, false, false},
-		"bigFail":  {"bigFail", func() templ.Component { return Big("FFFF") }, 40, false, false},
-		"pageFail": {"pageFail", func() templ.Component { return Page("carol", []string{"c1"}) }, 70, false, false},
+		}, -1, false, false, false},
+		"bigFail":  {"bigFail", func() templ.Component { return Big("FFFF") }, 40, false, false, false},
+		"pageFail": {"pageFail", func() templ.Component { return Page("carol", []string{"c1"}) }, 70, false, false, false},
 	}
 }
 
